@@ -277,7 +277,8 @@ pub fn case(ctx: &Ctx, shard: usize, index: u64, rep: &mut Report) {
     // a quarter of the cases: the decoder has already decoded other pictures (of this or another size,
     // intra and predicted) before the picture under test - what an intra picture decodes to must not
     // depend on what the instance did before; and the source may deliver a few bytes per read call
-    let mut dec = Dec::new(flavour.sorenson(), false);
+    // Sorenson decoders are sometimes constructed with the scalability option as well (it concerns standard headers only)
+    let mut dec = Dec::new(flavour.sorenson(), flavour.sorenson() && rng.chance(1, 4));
     dec.chunk = *rng.pick(&[usize::MAX, usize::MAX, usize::MAX, 1, 2, 5, 64, 1000]);
     if dec.chunk != usize::MAX {
         rep.count("chunked_source_cases");
